@@ -32,7 +32,7 @@ def set_ir(draw, nz, centre, families=None, allow_lift=True, max_pieces=3):
             f = 'box'
         names.append(f)
     if 'kl' in names:
-        names = ['kl'] + [n for n in names if n in ('box', 'poly', 'l1')][:1]
+        names = ['kl'] + [n for n in names if n in ('box', 'poly', 'l1', 'l2')][:1]
         k = draw(st.sampled_from([4, 8]))
         parts = [draw(st.integers(1, 3)) for _ in range(nz)]
         tot = sum(parts)
